@@ -335,6 +335,12 @@ impl<'t, 'c> Gen<'t, 'c> {
         }
     }
 
+    /// A string expression of bounded length (safe to assign to a variable it mentions, even in loops).
+    pub fn bounded_str(&mut self, depth: usize) -> Expr {
+        let e = self.str_expr(depth);
+        Expr::BuiltIn { name: "LEFT$".into(), args: vec![e, Expr::Lit(Lit::Whole(24))], ty: Ty::Str }
+    }
+
     /// Condition (INTEGER-typed truth value).
     pub fn cond(&mut self, depth: usize) -> Expr {
         if depth == 0 || self.t.chance(3, 5) {
@@ -394,6 +400,8 @@ impl<'t, 'c> Gen<'t, 'c> {
     fn assign_stmt(&mut self) -> Stmt {
         if self.cfg.strings && self.t.chance(1, 5) {
             let e = self.str_expr(2);
+            // bounded length: a string that is concatenated with itself inside nested loops would explode
+            let e = Expr::BuiltIn { name: "LEFT$".into(), args: vec![e, Expr::Lit(Lit::Whole(24))], ty: Ty::Str };
             let l = self.scalar(Ty::Str, true);
             return Stmt::Assign(l, e);
         }
@@ -516,7 +524,7 @@ impl<'t, 'c> Gen<'t, 'c> {
                 if let Some(rv) = self.prog.procs[p].result_var {
                     if self.t.chance(1, 5) {
                         let ty = self.prog.procs[p].ret.unwrap();
-                        let e = if ty == Ty::Str { self.str_expr(1) } else { self.num_expr(ty, 1) };
+                        let e = if ty == Ty::Str { self.bounded_str(1) } else { self.num_expr(ty, 1) };
                         let name = self.prog.procs[p].name.clone();
                         out.push(Stmt::Assign(LValue { name, var: rv, index: vec![], fields: vec![], sty: STy::B(ty) }, e));
                         return;
@@ -918,7 +926,7 @@ impl<'t, 'c> Gen<'t, 'c> {
             for pa in self.prog.procs[p].params.clone() {
                 if self.t.chance(1, 2) {
                     let ty = pa.sty.ety().unwrap();
-                    let e = if ty == Ty::Str { self.str_expr(1) } else { self.num_expr(ty, 1) };
+                    let e = if ty == Ty::Str { self.bounded_str(1) } else { self.num_expr(ty, 1) };
                     body.push(Stmt::Assign(LValue { name: pa.name.clone(), var: pa.var, index: vec![], fields: vec![], sty: pa.sty.clone() }, e));
                 }
             }
